@@ -87,7 +87,10 @@ func isTrustedProxy(remoteIP *string, trustedProxyCIDRs []*net.IPNet) bool {
 	if ip == nil {
 		return false
 	}
-	if len(trustedProxyCIDRs) == 0 {
+	// nil means "no list configured" (trust every proxy). A configured list whose
+	// entries were all rejected by parseTrustedProxyCIDRs is empty but non-nil and
+	// must fail closed: it trusts nobody.
+	if trustedProxyCIDRs == nil {
 		return true
 	}
 	for _, cidr := range trustedProxyCIDRs {
